@@ -111,7 +111,7 @@ func genRequestScenario(prop string, rng *rand.Rand, o requestOpts) *sim.Scenari
 		if lisPort == 0 {
 			lisPort = 33434
 		}
-		lis := sim.Listener{Addr: c.Target, Port: lisPort, Permitted: true, Timestamps: chance(rng, 0.5), ISN: rng.Uint32(), ServerSeq: rng.Uint32()}
+		lis := sim.Listener{Addr: c.Target, Port: lisPort, Permitted: true, Timestamps: chance(rng, 0.5), ISN: rng.Uint32(), ServerSeq: rng.Uint32(), OptLayout: pick(rng, "", "", "bsd", "win", "tsfirst", "sacklast")}
 		// a SYN-ACK that takes a while: every run of the request has its capture handle open by then and
 		// sees the SYN-ACKs of all of them
 		if chance(rng, 0.15) {
